@@ -185,13 +185,24 @@ func (j *jsonBuilder) flattenObject(value *astjson.Value, path ast.Path) ([]*ast
 // flattenList flattens a list of JSON values into a list of values.
 // This is needed because we want to get the values from the list by its path to merge them with the response values.
 func (j *jsonBuilder) flattenList(items []*astjson.Value, path ast.Path) ([]*astjson.Value, error) {
-	if path.Len() == 0 {
-		return items, nil
-	}
-
-	result := make([]*astjson.Value, 0)
+	result := make([]*astjson.Value, 0, len(items))
 	for _, item := range items {
-		values, err := j.flattenObject(item, path)
+		var (
+			values []*astjson.Value
+			err    error
+		)
+
+		switch item.Type() {
+		case astjson.TypeArray:
+			// Nested list (e.g. [[Category!]!]!): the path continues below the innermost items.
+			values, err = j.flattenList(item.GetArray(), path)
+		case astjson.TypeNull:
+			// A null inner list or item has no resolver context either, so there is nothing to merge into.
+			continue
+		default:
+			values, err = j.flattenObject(item, path)
+		}
+
 		if err != nil {
 			return nil, err
 		}
